@@ -87,8 +87,15 @@ def check_exports(case, with_paths=True):
     name = f"x{os.getpid()}"
     an = Analysed(case)
     blocks = g.blocks
+    # several printers in ONE invocation (one parse, one process state) when the case says so
+    combo = case.get("combo")
+    r_all = None
+    if combo:
+        r_all = cli.run_cli(["print", ",".join(combo), "--contracts", "{file}"], g.text, name)
+        if r_all.exc is not None or r_all.exit_code not in (None, 0):
+            raise Violation("printer-failed", f"print {','.join(combo)}: {r_all.exc!r} exit {r_all.exit_code}\n{g.text}")
     # ---- cfg
-    r = cli.run_cli(["print", "cfg", "--contracts", "{file}"], g.text, name)
+    r = r_all or cli.run_cli(["print", "cfg", "--contracts", "{file}"], g.text, name)
     if r.exc is not None or r.exit_code not in (None, 0):
         raise Violation("printer-failed", f"cfg: {r.exc!r} exit {r.exit_code}\n{g.text}")
     dg = DotGraph(_read(os.path.join(r.out_dir, "full_cfg.dot")))
@@ -103,7 +110,7 @@ def check_exports(case, with_paths=True):
         if port != dg.entry_line(b):
             raise Violation("cfg-edge-port", f"edge {a}->{b} enters at port {port}, entry line is {dg.entry_line(b)}")
     # ---- subroutine-cfg
-    r = cli.run_cli(["print", "subroutine-cfg", "--contracts", "{file}"], g.text, name)
+    r = r_all or cli.run_cli(["print", "subroutine-cfg", "--contracts", "{file}"], g.text, name)
     if r.exc is not None or r.exit_code not in (None, 0):
         raise Violation("printer-failed", f"subroutine-cfg: {r.exc!r} exit {r.exit_code}\n{g.text}")
     d = os.path.join(r.out_dir, "print-subroutine-cfg")
@@ -139,7 +146,7 @@ def check_exports(case, with_paths=True):
         if sorted(got_calls, key=str) != sorted(calls, key=str):
             raise Violation("call-box-wiring", f"{fn}: boxes {sorted(got_calls, key=str)} != call sites (callsub block, callee, return point) {sorted(calls, key=str)}\n{g.text}")
     # ---- transaction-context annotations
-    r = cli.run_cli(["print", "transaction-context", "--contracts", "{file}"], g.text, name)
+    r = r_all or cli.run_cli(["print", "transaction-context", "--contracts", "{file}"], g.text, name)
     if r.exc is not None or r.exit_code not in (None, 0):
         raise Violation("printer-failed", f"transaction-context: {r.exc!r} exit {r.exit_code}\n{g.text}")
     tg = DotGraph(_read(os.path.join(r.out_dir, "print-transaction-context", "transaction-context.dot")))
@@ -268,6 +275,8 @@ def export_case(draw, disabled=()):
         p = draw(semantic_program(profile="modelled", disabled=disabled, max_stmts=8))
     p = {k: p[k] for k in p if k in ("version", "items", "mode", "features", "structured")}
     p["filter"] = draw(filters)
+    if draw(st.booleans()):
+        p["combo"] = list(draw(st.permutations(["cfg", "subroutine-cfg", "transaction-context"])))
     return p
 
 
